@@ -286,6 +286,22 @@ func c08r2(p *Program, r *Report) {
 	for _, pr := range problems {
 		r.Bad(nil, "stream word CAS at "+pr, pr)
 	}
+	// the words of the bitmap change only by compare-and-swap (outside the constructor): a plain atomic store, add
+	// or swap of a word writes a stale snapshot of the other 63 bits back
+	for _, fi := range streamsPkgFuncs(p) {
+		if fi.Name == "streams.New" {
+			continue
+		}
+		info := fi.Pkg.TypesInfo
+		for _, c := range callsIn(fi.Decl.Body) {
+			nm := calleeName(info, c)
+			if (nm == "atomic.StoreUint64" || nm == "atomic.AddUint64" || nm == "atomic.SwapUint64" || nm == "atomic.OrUint64" || nm == "atomic.AndUint64") && len(c.Args) >= 1 {
+				if _, isWord := wordKey(info, fi, c.Args[0]); isWord {
+					r.Bad(c, fi.Name+" changes a bitmap word only by compare-and-swap", "a word of the stream bitmap is written with "+nm+" instead of a compare-and-swap against the value it was computed from: a concurrent claim or release of another id in the same word is undone, so an id in flight is handed out again (or a free one is lost)")
+				}
+			}
+		}
+	}
 	nclaim, nclear := 0, 0
 	for _, st := range sites {
 		fi, c := st.fi, st.call
